@@ -82,14 +82,17 @@ class ReplayMonitor:
         engine = args[0]
         sizes = [int(np.size(v.value)) for v in engine.input_variables]
         n = max(sizes or [1])
-        if n <= 1 and not self.always:
+        one_row_as_array = n == 1 and any(isinstance(v.value, np.ndarray) and v.value.ndim >= 1 for v in engine.input_variables)
+        if n <= 1 and not self.always and not one_row_as_array:
             return None
         if any(s not in (1, n) for s in sizes):
             self.ctx.hit("out_of_domain:input variables hold batches of different sizes")
             return None
         if not all(type(rb.activation).__name__ == "General" for rb in engine.rule_blocks if rb.enabled):
-            self.ctx.hit("out_of_domain:activation method other than General")
-            return None
+            if not one_row_as_array:
+                self.ctx.hit("out_of_domain:activation method other than General")
+                return None
+            self.ctx.hit("compare:one row given as an array under another activation method")
         try:
             shadow = copy.deepcopy(engine)
         except Exception as ex:
@@ -286,7 +289,8 @@ def run(ctx):
         mon.install(probe)
         held = Held(ctx)
         for i, rnd in ctx.cases("engines", nengines):
-            spec = E.gen_engine(rnd, activations=("General",), d=rnd.choice([1, 3, 3]), resolutions=[1, 2, 5, 10, 37, 100, 1000], free_weights=True, share_defuzzifier=True, routes=True)
+            single_rows = i % 6 == 4  # every activation method, fed one row at a time - as arrays of one row
+            spec = E.gen_engine(rnd, activations=("General",) if not single_rows else ("First", "Last", "Highest", "Lowest", "Proportional", "Threshold", "General"), allow_output_antecedent=not single_rows, d=rnd.choice([1, 3, 3]), resolutions=[1, 2, 5, 10, 37, 100, 1000], free_weights=True, share_defuzzifier=True, routes=True)
             if rnd.random() < 0.12:
                 mix_families(rnd, spec)
                 ctx.hit("workload:output variable mixing term families under an Automatic weighted defuzzifier")
@@ -306,6 +310,8 @@ def run(ctx):
             held.clear()
             for h in range(ctx.scale(3, 4) if rnd.random() < 0.7 else 1):
                 n = n if (n > 1 and rnd.random() < 0.45) else rnd.choice([1, 2, 2, 3, 5, 8, maxn])
+                if single_rows:
+                    n = 1
                 rows = batch_rows(rnd, spec, n)
                 arr = np.array(rows, dtype=float)
                 way = rnd.choice(["per-variable", "matrix", "matrix"])
@@ -329,6 +335,12 @@ def run(ctx):
                         for k, v in enumerate(engine.input_variables[2:], start=2):
                             v.value = arr[:, k]
                         ctx.hit("event:input variables given views of one buffer")
+                    elif single_rows:
+                        if rnd.random() < 0.5:
+                            engine.input_values = arr[:1, :]  # a matrix of one row
+                        else:
+                            for k, v in enumerate(engine.input_variables):
+                                v.value = arr[:1, k]  # arrays of one value
                     elif way == "per-variable" or n == 1 and rnd.random() < 0.5:
                         if envname == "float32":
                             mon.given[id(engine)] = [arr[:, k].copy() for k in range(arr.shape[1])]
@@ -398,6 +410,7 @@ def run(ctx):
         probe.report(ctx)
         reach.report(ctx)
     ctx.require("workload:output variable mixing term families under an Automatic weighted defuzzifier", "workload:large batch", "event:input variables given views of one buffer", "compare:fuzzy_value texts", "compare:inputs as the workload handed them over")
+    ctx.require("compare:one row given as an array under another activation method")
     ctx.require("workload:single precision with cancelling inputs", "environment:float32", "law:values handed out earlier are left alone", *[f"environment:{e}" for e in ENVIRONMENTS])
     ctx.require("hook:Engine.process", "compare:batch vs float", "hook:Engine.input_values.setter", "input_values:2d", "input_values:1d", "input_values:0d", "compare:output_values readable", "batch_size:2-8")
     for d in E.INTEGRAL + ["WeightedAverage", "WeightedSum"]:
